@@ -8,6 +8,10 @@ CHECKS = {
     text="Explicit-state BFS over the real factory+pair+cw20 contracts in cw-multi-test: every sequence of <=3 (quick) / <=4-5 (thorough) deposits, withdrawals, swaps, fee collections and fee changes by 3 users from 13-72 structurally different roots; solvency, LP-value monotonicity (exact 1024-bit integers), pro-rata bounds, deposit->withdraw probe and min-liquidity lock are evaluated on every transition/state.",
     note="Bounded: amounts from a reserve-relative alphabet, depth <= bound. Trusted: cw-multi-test chain semantics, cw20-base, rustc; snapshot/restore validated by genesis replays.",
     tech="explicit-state model checking of the implementation (level-synchronous BFS, full-state fingerprints)", ref="DESIGN.md §4 C01"),
+ "C02": dict(
+    text="Bounded-exhaustive enumeration (depth-1 exploration, nothing sampled) of the real compute_swap over (boundary values)^3 x 14 fee triples x 3 decimal settings plus a dense cube: 4.2e6 points quick, 2.0e8 thorough; every point compared with an exact 1024-bit oracle (gross price, each fee, return<ask, totality incl. caught panics, there-and-back). A sub-grid is executed on the really deployed pair: Simulation query == hook result and executed there-and-back swaps never gain.",
+    note="Covers structured grid points only, not all 2^384 inputs. Totality is judged against the ideal-price spread fitting 128 bits. Trusted: uint crate arithmetic for the oracle.",
+    tech="bounded-exhaustive input-grid enumeration on the real function + deployed contract (explicit-state, depth 1)", ref="DESIGN.md §4 C02"),
 }
 NOT_BUILT = "check not built yet in this round (planned, see DESIGN.md)"
 props = [json.loads(l) for l in open('/verif/properties.jsonl')]
